@@ -232,7 +232,7 @@ Proof. repeat split. Qed.
 Definition si_all_faults : list si_fault :=
   [SfInUse; SfProto; SfBadAddr; SfNoCert; SfCertOnly; SfKeyOnly; SfCertMissing; SfCertGarbage; SfMismatch;
    SfCaMissing; SfCaGarbage; SfVccNoCa; SfNoTag; SfDupTag; SfNoAddr; SfScheme; SfBadTag; SfNoFile; SfBadData;
-   SfNoSet; SfNoUp; SfNoMarker; SfBadMarker; SfBadRedis].
+   SfNoSet; SfNoUp; SfNoMarker; SfBadMarker; SfBadRedis; SfHeldByRouter false; SfHeldByRouter true].
 
 Definition si_fault_ok (k : si_kind) (f : si_fault) : bool :=
   match si_fault_stmt k f with
@@ -254,7 +254,7 @@ Proof.
 Qed.
 
 Lemma si_all_faults_complete f : In f si_all_faults.
-Proof. destruct f; cbn; tauto. Qed.
+Proof. destruct f as [| | | | | | | | | | | | | | | | | | | | | | | |[|]]; cbn; tauto. Qed.
 
 (* a configuration fault that is an error makes run() report an error (for every component kind) *)
 Lemma si_fault_reported k f j :
@@ -277,3 +277,65 @@ Lemma si_bad_cert_is_error :
                        SfCaGarbage; SfVccNoCa])
           [SiSrvTls; SiSrvHttps; SiSrvQuic] = true.
 Proof. reflexivity. Qed.
+
+(* ---- address held by another instance of the router ---- *)
+(* the code refuses the second instance exactly when the listener's sockets do not carry SO_REUSEPORT *)
+Lemma si_refuses_spec k rp :
+  In k si_all_kinds ->
+  si_refuses k rp = match k with
+                    | SiKMetrics => true
+                    | SiKSrv s => negb ((rp && si_applies_sockopts s) || si_threads_reuseport s)
+                    | _ => false
+                    end.
+Proof.
+  intros _. destruct k as [|u| | |m r mk|s]; try reflexivity.
+  destruct s, rp; reflexivity.
+Qed.
+
+(* wherever the property demands a refusal the code refuses - except a udp listener with udp.threads >= 2 *)
+Lemma si_must_refuse_holds k rp :
+  si_must_refuse k rp = true -> k <> SiKSrv SiSrvUdpN -> si_refuses k rp = true.
+Proof.
+  destruct k as [|u| | |m r mk|s]; cbn; try discriminate; auto.
+  destruct s, rp; cbn; auto; try discriminate; intros _ H; now elim H.
+Qed.
+
+Lemma si_udp_threads_shares :
+  si_must_refuse (SiKSrv SiSrvUdpN) false = true /\ si_refuses (SiKSrv SiSrvUdpN) false = false.
+Proof. split; reflexivity. Qed.
+
+(* ---- closers and their peers ---- *)
+Lemma si_close_walk_no_wait cl :
+  si_no_peer_wait (map fst cl) = true -> si_close_walk cl = (length cl, true).
+Proof.
+  induction cl as [|[w st] tl IH]; cbn; [reflexivity|]. intros H. apply andb_true_iff in H. destruct H as [Hw Ht].
+  rewrite (IH Ht). destruct w; try discriminate; reflexivity.
+Qed.
+
+(* conversely: with a closer that waits for its peers there is a peer behaviour that blocks close, and no closer
+   behind it is called *)
+Lemma si_close_walk_blocks pre post :
+  si_no_peer_wait pre = true ->
+  si_close_walk (map (fun w => (w, true)) (pre ++ SiWaitPeers :: post)) = (length pre, false).
+Proof.
+  induction pre as [|w tl IH]; cbn; [reflexivity|]. intros H. apply andb_true_iff in H. destruct H as [Hw Ht].
+  rewrite (IH Ht). destruct w; try discriminate; reflexivity.
+Qed.
+
+Lemma si_closer_wait_not_peers k w : si_closer_wait k = Some w -> w <> SiWaitPeers.
+Proof.
+  destruct k as [|u| | |m r mk|s]; cbn; intros E; try discriminate; try (inversion E; subst; discriminate).
+  destruct s; inversion E; subst; discriminate.
+Qed.
+
+Lemma si_closers_no_peer_wait items : si_no_peer_wait (map fst (si_closers items)) = true.
+Proof.
+  induction items as [|[k st] tl IH]; [reflexivity|]. cbn [si_closers].
+  destruct (si_closer_wait k) as [w|] eqn:E; [|exact IH].
+  cbn [map fst si_no_peer_wait forallb]. fold (si_no_peer_wait (map fst (si_closers tl))). rewrite IH.
+  pose proof (si_closer_wait_not_peers k w E) as N. destruct w; [reflexivity|reflexivity|now elim N].
+Qed.
+
+Lemma si_close_always_returns items :
+  si_close_walk (si_closers items) = (length (si_closers items), true).
+Proof. apply si_close_walk_no_wait. apply si_closers_no_peer_wait. Qed.
